@@ -15,6 +15,10 @@ SPECIES = [['O3'], ['O3', 'NO2'], ['O', 'NO2', 'ABCDEFGHIJ'], ['NO', 'NO_2'], ['
 SHAPES = [(nx, ny, nz) for nx in (1, 2, 3) for ny in (1, 2, 3) for nz in (1, 2, 3)]
 GRID2 = dict(plon=-100., plat=45., iutm=0, xorg=-24., yorg=12., delx=4., dely=2., iproj=2, istag=0,
              tlat1=30., tlat2=60.)
+# UTM grids (projection code 1): zone 15 north, zone 19 south (negative zone number)
+GRIDS = [GRID2,
+         dict(GRID2, iproj=1, iutm=15, plon=0., plat=0., tlat1=0., tlat2=0., xorg=500., yorg=4000.),
+         dict(GRID2, iproj=1, iutm=-19, plon=0., plat=0., tlat1=0., tlat2=0., xorg=300., yorg=6000.)]
 FORMATS = ('uamiv', 'lateral_boundary', 'humidity', 'vertical_diffusivity', 'one3d', 'temperature',
            'height_pressure', 'wind', 'cloud_rain')
 MET = ('humidity', 'vertical_diffusivity', 'one3d', 'temperature', 'height_pressure', 'wind', 'cloud_rain')
@@ -95,6 +99,10 @@ def extras(fmt, add):
         for n in (1, 2, 3):
             add(nsteps=n, start=6, end24=True)
             add(nsteps=n, start=2, end24=True)
+    if fmt in ('uamiv', 'lateral_boundary'):
+        for gv in (1, 2):
+            add(gridv=gv)
+            add(gridv=gv, nsteps=2, shape=[2, 3, 1])
     if fmt == 'uamiv':
         # 2-D files whose grid header carries nz = 0 (usual for low-level emissions)
         for n in (1, 2, 3):
@@ -155,7 +163,7 @@ def materialize(d):
         r['name'] = NAMES[d['name']] if fmt == 'uamiv' else 'BOUNDARY'
         r['note'] = 'reference note %d' % d['spc']
         r['itzon'] = 6
-        r['grid'] = dict(GRID2)
+        r['grid'] = dict(GRIDS[d.get('gridv', 0)])
         if d.get('hdr_nz0'):
             r['hdr_nz'] = 0
         ns = len(r['species'])
